@@ -815,6 +815,11 @@ def laws(rng, tier, ctx):
     # arguments of a presync-decorated function
     for _ in range(n // 2):
         arrs = [np.array([rng.choice(VALS) if rng.random() > 0.2 else nan for _ in range(rng.choice([0, 1, 2, 3, 4, 6]))], dtype=float) for _ in range(rng.choice([2, 3]))]
+        # arrays of another dtype (int, bool, float32): the statement's NaN padding holds for "bare numpy arrays", not for float64 only
+        # (seeded C03-u2: padding with np.full_like(ts, nan) writes -9223372036854775808 / True into int / bool arrays)
+        adt = rng.choice([None, None, None, np.int64, np.int32, bool, np.float32])
+        if adt is not None:
+            arrs = [np.array([0 if v != v else v for v in a]).astype(adt) if adt is not np.float32 else a.astype(adt) for a in arrs]
         how = rng.choice(HOWS)
         m = rng.choice(['N', 'N', 'ffill', 'bfill'])
         shape = rng.choice(['flat', 'flat', 'nested', 'presync'])
@@ -849,7 +854,7 @@ def laws(rng, tier, ctx):
                     filled.append(last)
                 exp = filled if m == 'ffill' else filled[::-1]
             if not same_vals(list(map(float, b)), list(map(float, exp))):
-                yield Finding('violation', case, 'arrays are not aligned at the end%s: got %s, expected %s' % ('' if m == 'N' else ' and then filled', list(b), exp))
+                yield Finding('violation', case, 'arrays%s are not aligned at the end%s: got %s, expected %s' % ('' if adt is None else ' of dtype %s' % np.dtype(adt).name, '' if m == 'N' else ' and then filled', list(b), exp))
                 break
     # the declared reading of "keeps exactly its original value" (review t4 2.1): a NaN HELD at a surviving timestamp is no value -
     # reindexing an object onto ITS OWN index with a fill method is the plain fill of C12, df_fillna(x, method), and without a
